@@ -7,6 +7,7 @@ import GstVerif.Rng.Driver
 import GstVerif.Neigh.Driver
 import GstVerif.Vario.Driver
 import GstVerif.Calc.Driver
+import GstVerif.NF.Driver
 /-
   gstmodel: line-protocol driver.  One request per input line:
       <model> <op> <args…> => <implementation's answer…>
@@ -31,6 +32,7 @@ def dispatch (line : String) : String :=
   | "n" :: args => Neigh.handle args impl
   | "v" :: args => Vario.handle args impl
   | "c" :: args => Calc.handle args impl
+  | "f" :: args => NF.handle args impl
   | _ => "bad-op"
 
 partial def loop (h : IO.FS.Stream) (out : IO.FS.Stream) : IO Unit := do
